@@ -149,6 +149,9 @@ def run(rep, idx, tier):
     from . import glue as _g
     # the stall wire defaults to 1 on purpose: an initiator that does not own the bus is stalled (C08.2 checks that value)
     _g.late_sized_signals(rep, "C08.8", idx, "wishbone/bus:Arbiter", ("_intrs",))
+    # the shared bus has the geometry the arbiter's parameters describe (granularity=None means data_width)
+    rep.require("C08.9", 4)
+    _g.forwarded_parameters(rep, "C08.9", idx, ["wishbone/bus:Arbiter"])
     _g.reset_discipline(rep, "C08.8", idx, ["wishbone/bus:Arbiter"], allowed_init=[(("Arbiter", "intr_bus_stall"), "1")])
     r = arbiter_roles(rep, idx, "C08.1")
     if r is None:
